@@ -38,6 +38,13 @@ Theorem int_text_roundtrip : forall (n : N) (signed : bool) (v : Z),
 Proof. exact int_text_roundtrip_lemma. Qed.
 Print Assumptions int_text_roundtrip.
 
+(* the printed order (sorted by interval, since "fix: print DATA entries in offset order") is one the
+   assembler accepts: offsets are monotone, whatever the order of the placements *)
+Theorem printed_order_accepted : forall ops, (forall d, In d (g_data (fst (g_run ops))) -> 0 <= d_off d) ->
+  asm_monotone 0 (printed_data true (fst (g_run ops))) = true.
+Proof. exact printed_order_accepted_lemma. Qed.
+Print Assumptions printed_order_accepted.
+
 (* non-vacuity: a history with an overlapping and a touching placement *)
 Example data_example :
   snd (g_run [GAppend (CInt 4 false 7); GAdd 2 (CInt 2 true (-1)); GAdd 4 (CInt 1 true (-128)); GAdd 16 (CStr [104%N; 105%N])]) = [false; true; false; false]
